@@ -511,6 +511,9 @@ except Exception:      # noqa
 REAL_FUNCTION_MODELS = {}
 
 
+STR_JOIN_HOOK = None
+
+
 def call_builtin(it, f, args, kwargs, node):
     try:
         m = BUILTIN_MODELS.get(f)
@@ -537,6 +540,9 @@ def call_builtin(it, f, args, kwargs, node):
         if isinstance(selfobj, (list, dict, set)):
             return container_method(it, selfobj, f.__name__, args, kwargs, node)
         if isinstance(selfobj, (str, bytes, int, tuple, frozenset)) or selfobj is None or isinstance(selfobj, types.ModuleType):
+            if isinstance(selfobj, str) and f.__name__ == 'join' and STR_JOIN_HOOK is not None and len(args) == 1 \
+                    and isinstance(args[0], (list, tuple)) and any(hasattr(p, 'label') or hasattr(p, 'kind') for p in args[0]):
+                return STR_JOIN_HOOK(it, selfobj, list(args[0]))
             if all(_concrete(a) for a in args) and all(_concrete(a) for a in kwargs.values()):
                 try:
                     return f(*args, **kwargs)
